@@ -337,21 +337,25 @@ func (c *Ctx) checkActingUserNotSession(rule string, scope string) {
 				}
 			}
 		case "p2p-name":
-			if !isPtrToNamedRecv(fn, "Session") {
+			// the session's topic-name expansion and the helpers it calls
+			if fn != c.ssaMethod("server", "Session", "expandTopicName") {
 				continue
 			}
-			for _, ci := range core.CallsTo(fn, p2pName) {
+			c.withCallees(fn, 2, func(owner *ssa.Function, in ssa.Instruction, _ ssa.Instruction) {
+				call, ok := in.(*ssa.Call)
+				if !ok || core.CalleeOf(&call.Call) != p2pName {
+					return
+				}
 				n++
-				args := core.CallArgs(ci.Common())
 				bad := false
-				for _, a := range args {
+				for _, a := range core.CallArgs(&call.Call) {
 					if fromSess(a) {
 						bad = true
 					}
 				}
-				r.Check(!bad, rule, fmt.Sprintf("%s: P2PName of the acting user and the addressee", fk(fn)), c.pos(ci), "",
+				r.Check(!bad, rule, fmt.Sprintf("%s: P2PName of the acting user and the addressee", fk(owner)), c.pos(call), "",
 					"the p2p topic name is built from the session's own uid instead of the acting user: a request sent on behalf of A to usrB is routed to p2p(root,B)")
-			}
+			})
 		}
 	}
 	r.Check(n >= 1, rule, "sites in scope ("+scope+")", "-", fmt.Sprintf("%d", n), "anchor lost")
@@ -851,7 +855,12 @@ func (c *Ctx) checkSeqReportedBeforeReentry() {
 			}
 		}
 	}
-	r.Check(n >= 2, "C01.2g-reported-before-reentry", "reads of lastID after the increment", "-", fmt.Sprintf("%d", n), "fewer than two: anchor lost")
+	if n == 0 {
+		// the id is threaded as a value (`seq := lastID+1 ... lastID = seq; reply(seq)`): nothing is re-read
+		r.Info("C01.2g-reported-before-reentry", "reads of lastID after the increment", "-", "none: the reported id is not re-read from Topic.lastID (C01.2e decides that it is the incremented value)")
+	} else {
+		r.OK("C01.2g-reported-before-reentry", "reads of lastID after the increment", "-", fmt.Sprintf("%d", n))
+	}
 }
 
 func retOrdinalOfLoad(fn *ssa.Function, at ssa.Instruction) string {
